@@ -1577,6 +1577,27 @@ func (fr *frame) ReturnVals() [][]Val {
 	return out
 }
 
+// ReturnStores lists the memory at every reachable return, in the order of
+// ReturnVals (top-level activations only).
+func (fr *frame) ReturnStores() []Store {
+	var rets []*ssa.Return
+	for r := range fr.returns {
+		rets = append(rets, r)
+	}
+	sort.Slice(rets, func(i, j int) bool { return rets[i].Pos() < rets[j].Pos() })
+	var out []Store
+	for _, r := range rets {
+		out = append(out, fr.retStores[r])
+	}
+	return out
+}
+
+// At makes the rules' memory reads (HeapAt, Load, Elem) refer to the given store.
+func (in *Interp) At(s Store) {
+	in.curFr = nil
+	in.final = s
+}
+
 // Reached reports whether instr was reached.
 func (fr *frame) Reached(instr ssa.Instruction) bool { return fr.reached[instr] }
 
